@@ -11,8 +11,7 @@ Reading guide
 * `Lex.intCtor b s`     : `T(s)` for a class of the integer family with bounds `b`
 * `XSD.integerLex` etc. : the lexical spaces, by the grammar productions of the recommendation
 -/
-import EPV.Lemmas.LexicalDbl
-import EPV.Lemmas.LexicalHex
+import EPV.Lemmas.LexicalCast
 namespace EPV.C10
 open EPV EPV.LexLemmas
 
@@ -131,6 +130,31 @@ theorem dec_is_valid_iff_ctor_partial (s : List Char) (hn : Lex.collapse s = s) 
 /-- the fixes of F10d are visible in the model: inner spaces are not removed (tests on literals) -/
 example : (Lex.decCtor "1 2".toList).toBool = false ∧ (Lex.decCtor " +.50\t".toList).toBool = true ∧
     (Lex.decCtor ".".toList).toBool = false ∧ (Lex.decCtor "5.".toList).toBool = true := by decide
+
+/-- **canon_fixed_point (xs:decimal)**: for every Decimal `d` built from digit strings, the canonical
+string `string_value(d)` re-parses (through the constructor, no white-space surprises) to a Decimal `d'`
+that denotes the same number, and printing `d'` gives the same string again:
+`parse (canon d) ≈ d ∧ canon (parse (canon d)) = canon d`. -/
+theorem dec_canon_fixed_point (d : Lex.PyDec) (h : WFDec d) :
+    ∃ d', Lex.decCtor (Lex.decCanon d) = .ok d' ∧ (pyDecVal d').same (pyDecVal d) ∧
+      Lex.decCanon d' = Lex.decCanon d :=
+  ⟨reparsed d, decCtor_decCanon d h, reparsed_same d, decCanon_reparsed d⟩
+
+/-- … in particular for every Decimal the constructor itself produces from a string. -/
+theorem dec_canon_fixed_point_of_ctor (s : List Char) (d : Lex.PyDec) (h : Lex.decCtor s = .ok d) :
+    ∃ d', Lex.decCtor (Lex.decCanon d) = .ok d' ∧ (pyDecVal d').same (pyDecVal d) ∧
+      Lex.decCanon d' = Lex.decCanon d := by
+  rw [dec_ctor_iff_lexical] at h
+  split at h
+  · rename_i hl
+    cases h
+    exact dec_canon_fixed_point _ (decOfLex_wf _ hl)
+  · cases h
+
+/-- the fix of F10z is visible in the model (tests on literals): negative zero prints as "0" -/
+example : Lex.decCanon ⟨true, "0".toList, "00".toList⟩ = "0".toList ∧
+    Lex.decCanon ⟨true, "007".toList, "500".toList⟩ = "-7.5".toList ∧
+    Lex.decCanon ⟨false, [], "5".toList⟩ = "0.5".toList := by decide
 
 /-! ## double / float -/
 
@@ -267,6 +291,46 @@ theorem bool_canon_fixed_point (b : Bool) :
 theorem hex_pattern_eq_lexical (s : List Char) (h : '\n' ∉ s) : Lex.matchHex s = XSD.hexLex s :=
   matchHex_eq s h
 
+/-- **ctor_iff_lexical (xs:hexBinary)**: the constructor succeeds exactly when the collapsed string is
+hexOctet* (XSD 1.1 §3.3.15), and stores that string (`str.strip()` inside `validate` and the ASCII
+encoding step change nothing on accepted input, and reject U+00A0-padded input). -/
+theorem hex_ctor_iff_lexical (s : List Char) :
+    Lex.hexCtor s = if XSD.hexLex (Lex.collapse s) then .ok (Lex.collapse s) else .error .value :=
+  hexCtor_eq s
+
+/-- PARTIAL (F10w) -/
+theorem hex_ctor_iff_lexical_partial (s : List Char) (h : noPyOnlyWhite s = true) :
+    (Lex.hexCtor s).toBool = XSD.hexLex (XSD.wsCollapse s) := by
+  rw [hexCtor_eq, collapse_eq_wsCollapse s h]
+  cases XSD.hexLex (XSD.wsCollapse s) <;> rfl
+
+/-- **ctor_iff_lexical (xs:base64Binary)**: the constructor succeeds exactly when the collapsed string is in
+the lexical space of XSD 1.1 §3.3.16 (quads of Base64 characters, optional single spaces, `=` padding only
+after a B16 / `==` only after a B04 character), and stores it without the spaces. -/
+theorem base64_ctor_iff_lexical (s : List Char) :
+    Lex.b64Ctor s =
+      if XSD.base64Lex (Lex.collapse s) then .ok ((Lex.collapse s).filter (· != ' ')) else .error .value :=
+  b64Ctor_eq s
+
+/-- PARTIAL (F10w) -/
+theorem base64_ctor_iff_lexical_partial (s : List Char) (h : noPyOnlyWhite s = true) :
+    (Lex.b64Ctor s).toBool = XSD.base64Lex (XSD.wsCollapse s) := by
+  rw [b64Ctor_eq, collapse_eq_wsCollapse s h]
+  cases XSD.base64Lex (XSD.wsCollapse s) <;> rfl
+
+/-- `is_valid` of the binary types does its own normalisation (strip / space removal): on whitespace-normal
+strings it agrees with the constructor.  PARTIAL (F10v). -/
+theorem base64_is_valid_iff_ctor_partial (s : List Char) (hn : Lex.collapse s = s) :
+    Lex.b64IsValid s = (Lex.b64Ctor s).toBool := by
+  unfold Lex.b64Ctor
+  simp only [hn]
+  cases Lex.b64IsValid s <;> rfl
+
+/-- tests on literals: padding rules -/
+example : (Lex.b64Ctor "AA= =".toList).toBool = true ∧ (Lex.b64Ctor "AB==".toList).toBool = false ∧
+    (Lex.b64Ctor " QU JD ".toList) = .ok "QUJD".toList ∧ (Lex.hexCtor "0F 0F".toList).toBool = false ∧
+    Lex.hexCtor " 0f\n".toList = .ok "0f".toList ∧ (Lex.hexCtor [Char.ofNat 160, '0', 'F']).toBool = false := by decide
+
 /-- **hex codec**: decode ∘ encode = id over all octet lists (lower- and upper-case rendering). -/
 theorem hex_roundtrip (bs : List Lex.Byte) :
     Lex.hexDecode (Lex.hexEncode bs) = some bs ∧ Lex.hexDecode (Lex.hexEncodeUpper bs) = some bs :=
@@ -287,5 +351,226 @@ theorem hex_base64_value_preserved (bs : List Lex.Byte) :
 /-- non-trivial instance (test on literals) -/
 example : Lex.b64Encode [65, 66, 67, 68] = "QUJDRA==".toList ∧ Lex.hexEncodeUpper [0, 255, 16] = "00FF10".toList := by
   decide
+
+/-! ## casting: numeric / string / boolean / untypedAtomic corner -/
+
+/-- **castable_iff_cast_ok**: `E castable as T` is true exactly when `E cast as T` succeeds.  (In the
+implementation `castable` *is* "run the cast, catch the error"; the model transcribes that, so this holds
+by construction — the agreement of the three real code paths is what the correspondence checks.) -/
+theorem castable_iff_cast_ok (ver : Lex.Ver) (a : Lex.Atom) (t : Lex.Target) :
+    Lex.castable ver a t = true ↔ ∃ v, Lex.cast ver a t = .ok v := by
+  unfold Lex.castable
+  cases Lex.cast ver a t <;> simp [Except.toBool]
+
+/-- **cast_eq_constructor**: casting a string (or an xs:untypedAtomic) is running the datatypes
+constructor on it and mapping `ValueError` to FORG0001 — for each modelled target. -/
+theorem cast_eq_constructor (ver : Lex.Ver) (s : List Char) :
+    (∀ b, Lex.cast ver (.str s) (.integer b) =
+      match Lex.intCtor b s with | .ok v => .ok (.int v) | .error _ => .error .FORG0001) ∧
+    (Lex.cast ver (.str s) .decimal =
+      match Lex.decCtor s with | .ok d => .ok (.dec d.neg d.coef d.scale) | .error _ => .error .FORG0001) ∧
+    (Lex.cast ver (.str s) .double =
+      match Lex.dblCtor ver s with | .ok c => .ok (.dbl c) | .error _ => .error .FORG0001) ∧
+    (Lex.cast ver (.str s) .boolean =
+      match Lex.boolCtor s with | .ok b => .ok (.bool b) | .error _ => .error .FORG0001) ∧
+    (∀ t, Lex.cast ver (.untyped s) t = match t, Lex.cast ver (.str s) t with
+      | .untypedAtomic, r => r
+      | _, r => r) := by
+  refine ⟨fun _ => rfl, rfl, rfl, rfl, ?_⟩
+  intro t; cases t <;> rfl
+
+/-- which (operand, target) pairs `cast_eq_spec_partial` speaks about -/
+def castInScope (a : Lex.Atom) (t : Lex.Target) : Prop :=
+  (match a with
+    | .str s => noPyOnlyWhite s = true            -- F10w
+    | .untyped s => noPyOnlyWhite s = true
+    | _ => True) ∧
+  (match a, t with
+    | .dbl _ _, .string => False                  -- F10b: see `double_string_*`
+    | .dbl _ _, .untypedAtomic => False
+    | .dec _, .string => False                    -- canonical decimal strings: see `dec_canon_fixed_point`
+    | .dec _, .untypedAtomic => False
+    | .int v, .double => v.natAbs < 2 ^ 1024 - 2 ^ 970   -- F10o
+    | .int v, .float => v.natAbs < 2 ^ 1024 - 2 ^ 970
+    | _, _ => True)
+
+/-- PARTIAL: **the casts of the corner follow F&O 3.1 §19** — success and value (error codes forgotten):
+strings/untypedAtomic through the lexical spaces, boolean ↔ numeric, truncation toward zero for
+decimal/double → integer with the facets of the derived types, exact double → decimal, exact
+integer → decimal.  Out of scope (`castInScope`): Python-only white space (F10w), double → string (F10b),
+huge integer → double (F10o), decimal → string (stated separately as `dec_canon_fixed_point`). -/
+theorem cast_eq_spec_partial (ver : Lex.Ver) (a : Lex.Atom) (t : Lex.Target) (h : castInScope a t) :
+    toSRes (Lex.cast ver a t) = XSD.castSpec (toSAtom a) (toSType ver t) := by
+  obtain ⟨hw, hs⟩ := h
+  cases t with
+  | string =>
+    cases a <;> simp_all [Lex.cast, toSRes, toSVal, toSType, XSD.castSpec, toSAtom, Lex.stringValue,
+      XSD.castToString, intCanon_eq]
+  | untypedAtomic =>
+    cases a <;> simp_all [Lex.cast, toSRes, toSVal, toSType, XSD.castSpec, toSAtom, Lex.stringValue,
+      XSD.castToString, intCanon_eq]
+  | boolean =>
+    cases a with
+    | str s =>
+      simp only [Lex.cast, toSType, XSD.castSpec, toSAtom]
+      rw [boolCtor_eq, collapse_eq_wsCollapse s hw]
+      cases XSD.booleanLex (XSD.wsCollapse s) <;> rfl
+    | untyped s =>
+      simp only [Lex.cast, toSType, XSD.castSpec, toSAtom]
+      rw [boolCtor_eq, collapse_eq_wsCollapse s hw]
+      cases XSD.booleanLex (XSD.wsCollapse s) <;> rfl
+    | bool b => rfl
+    | int v => rfl
+    | dec d =>
+      simp only [Lex.cast, toSType, XSD.castSpec, toSAtom, toSRes, toSVal, pyDecVal]
+      congr 2
+      exact coef_ne_zero d.neg d.coef
+    | dbl x r => cases x <;> rfl
+  | integer b =>
+    cases a with
+    | str s =>
+      simp only [Lex.cast, toSType, XSD.castSpec, toSAtom]
+      rw [int_ctor_iff_lexical_partial b s hw]
+      unfold specIntCtor
+      simp only
+      cases XSD.integerLex (XSD.wsCollapse s) <;> simp [toSRes, toSVal]
+      cases XSD.inFacets b.lo (Option.map (fun x => x - 1) b.hi) (XSD.integerVal (XSD.wsCollapse s)) <;> simp [toSRes, toSVal]
+    | untyped s =>
+      simp only [Lex.cast, toSType, XSD.castSpec, toSAtom]
+      rw [int_ctor_iff_lexical_partial b s hw]
+      unfold specIntCtor
+      simp only
+      cases XSD.integerLex (XSD.wsCollapse s) <;> simp [toSRes, toSVal]
+      cases XSD.inFacets b.lo (Option.map (fun x => x - 1) b.hi) (XSD.integerVal (XSD.wsCollapse s)) <;> simp [toSRes, toSVal]
+    | bool x =>
+      simp only [Lex.cast, toSType, XSD.castSpec, toSAtom, bounds_ok_iff_facets]
+      exact toSRes_check _ _ _
+    | int v =>
+      simp only [Lex.cast, toSType, XSD.castSpec, toSAtom, bounds_ok_iff_facets]
+      exact toSRes_check _ _ _
+    | dec d =>
+      simp only [Lex.cast, toSType, XSD.castSpec, toSAtom, bounds_ok_iff_facets, truncQuot_eq, pyDecVal]
+      exact toSRes_check _ _ _
+    | dbl x r =>
+      cases x with
+      | fin neg n k =>
+        simp only [Lex.cast, toSType, XSD.castSpec, toSAtom, bounds_ok_iff_facets, truncQuot_eq]
+        exact toSRes_check _ _ _
+      | _ => rfl
+  | decimal =>
+    cases a with
+    | str s =>
+      simp only [Lex.cast, toSType, XSD.castSpec, toSAtom]
+      rw [dec_ctor_iff_lexical, collapse_eq_wsCollapse s hw]
+      cases hl : XSD.decimalLex (XSD.wsCollapse s)
+      · simp [toSRes]
+      · have := decOfLex_val _ hl
+        simp only [pyDecVal] at this
+        simp only [↓reduceIte, toSRes, toSVal, this]
+    | untyped s =>
+      simp only [Lex.cast, toSType, XSD.castSpec, toSAtom]
+      rw [dec_ctor_iff_lexical, collapse_eq_wsCollapse s hw]
+      cases hl : XSD.decimalLex (XSD.wsCollapse s)
+      · simp [toSRes]
+      · have := decOfLex_val _ hl
+        simp only [pyDecVal] at this
+        simp only [↓reduceIte, toSRes, toSVal, this]
+    | bool x => cases x <;> rfl
+    | int v =>
+      simp only [Lex.cast, toSType, XSD.castSpec, toSAtom, toSRes, toSVal, natAbs_signed]
+    | dec d => rfl
+    | dbl x r =>
+      cases x with
+      | fin neg n k =>
+        simp only [Lex.cast, toSType, XSD.castSpec, toSAtom, toSRes, toSVal]
+        congr 3
+        cases neg <;> simp [Int.neg_mul]
+      | _ => rfl
+  | double =>
+    cases a with
+    | str s =>
+      simp only [Lex.cast, toSType, XSD.castSpec, toSAtom]
+      rw [dbl_ctor_iff_lexical, collapse_eq_wsCollapse s hw]
+      cases XSD.doubleLex (ver != .v10) (XSD.wsCollapse s)
+      · rfl
+      · simp only [↓reduceIte, toSRes, toSVal, specDblClass]
+        rw [specDblClass_eq]
+    | untyped s =>
+      simp only [Lex.cast, toSType, XSD.castSpec, toSAtom]
+      rw [dbl_ctor_iff_lexical, collapse_eq_wsCollapse s hw]
+      cases XSD.doubleLex (ver != .v10) (XSD.wsCollapse s)
+      · rfl
+      · simp only [↓reduceIte, toSRes, toSVal, specDblClass]
+        rw [specDblClass_eq]
+    | bool x => rfl
+    | int v =>
+      have hv : ¬ (v.natAbs ≥ 2 ^ 1024 - 2 ^ 970) := by simp only at hs; omega
+      simp only [Lex.cast, hv, ↓reduceIte]; rfl
+    | dec d => rfl
+    | dbl x r => cases x <;> rfl
+  | float =>
+    cases a with
+    | str s =>
+      simp only [Lex.cast, toSType, XSD.castSpec, toSAtom]
+      rw [dbl_ctor_iff_lexical, collapse_eq_wsCollapse s hw]
+      cases XSD.doubleLex (ver != .v10) (XSD.wsCollapse s)
+      · rfl
+      · simp only [↓reduceIte, toSRes, toSVal, specDblClass]
+        rw [specDblClass_eq]
+    | untyped s =>
+      simp only [Lex.cast, toSType, XSD.castSpec, toSAtom]
+      rw [dbl_ctor_iff_lexical, collapse_eq_wsCollapse s hw]
+      cases XSD.doubleLex (ver != .v10) (XSD.wsCollapse s)
+      · rfl
+      · simp only [↓reduceIte, toSRes, toSVal, specDblClass]
+        rw [specDblClass_eq]
+    | bool x => rfl
+    | int v =>
+      have hv : ¬ (v.natAbs ≥ 2 ^ 1024 - 2 ^ 970) := by simp only at hs; omega
+      simp only [Lex.cast, hv, ↓reduceIte]; rfl
+    | dec d => rfl
+    | dbl x r => cases x <;> rfl
+
+/-- **int_dec_string_roundtrip**: for every integer `v`
+* integer → string → integer is the identity (`str(v)` is in the lexical space and re-parses to `v`),
+* integer → decimal → integer is the identity (exact conversion, truncation of an integral value),
+* the canonical string of `v` read as xs:decimal has value `v` (scale 0) and prints as the same string. -/
+theorem int_dec_string_roundtrip (ver : Lex.Ver) (v : Int) :
+    Lex.cast ver (.int v) .string = .ok (.str (Lex.intCanon v)) ∧
+    Lex.cast ver (.str (Lex.intCanon v)) (.integer ⟨none, none⟩) = .ok (.int v) ∧
+    Lex.cast ver (.int v) .decimal = .ok (.dec (decide (v < 0)) v.natAbs 0) ∧
+    Lex.truncQuot (decide (v < 0)) v.natAbs (10 ^ 0) = v ∧
+    (∃ d, Lex.decCtor (Lex.intCanon v) = .ok d ∧ pyDecVal d = ⟨v, 0⟩ ∧ Lex.decCanon d = Lex.intCanon v) := by
+  refine ⟨rfl, ?_, rfl, ?_, ?_⟩
+  · simp only [Lex.cast, intCtor_intCanon]
+  · unfold Lex.truncQuot
+    by_cases h : v < 0
+    · simp only [h, decide_true, ↓reduceIte, Nat.pow_zero, Nat.div_one]; omega
+    · simp only [h, decide_false, Bool.false_eq_true, ↓reduceIte, Nat.pow_zero, Nat.div_one]; omega
+  · have hlex : XSD.decimalLex (Lex.intCanon v) = true := by
+      have hnl : '\n' ∉ Lex.intCanon v := by
+        intro hm; have := intCanon_no_white v _ hm; exact absurd this (by decide)
+      have hm : Lex.matchInteger (Lex.intCanon v) = true := by
+        have := matchInteger_digits _ (Nat.toDigits_ne_nil (b := 10) (n := v.natAbs)) (toDigits_all_digit v.natAbs)
+        unfold Lex.intCanon; split
+        · exact this.2
+        · exact this.1
+      rw [matchInteger_eq _ hnl] at hm
+      unfold XSD.decimalLex; unfold XSD.integerLex at hm; simp [hm]
+    refine ⟨Lex.decOfLex (Lex.intCanon v), ?_, ?_, ?_⟩
+    · rw [dec_ctor_iff_lexical, collapse_of_no_white _ (intCanon_no_white v), hlex]; rfl
+    · rw [decOfLex_intCanon]
+      simp only [pyDecVal, Lex.PyDec.coef, Lex.PyDec.scale, List.append_nil, List.length_nil, Lex.digitsVal,
+        Nat.ofDigitChars_ten_toDigits, natAbs_signed]
+    · rw [decOfLex_intCanon, decCanon_of_int]
+
+/-- the scope is inhabited by non-trivial pairs (tests on literals): -1.50 → integer truncates toward
+zero; 300 does not fit xs:byte; the double −3/2 becomes the decimal −1.5 exactly -/
+example :
+    Lex.cast .v11 (.dec ⟨true, "1".toList, "50".toList⟩) (.integer ⟨none, none⟩) = .ok (.int (-1)) ∧
+    Lex.cast .v11 (.int 300) (.integer ⟨some (-128), some 128⟩) = .error .FORG0001 ∧
+    Lex.cast .v11 (.dbl (.fin true 3 1) "-1.5".toList) .decimal = .ok (.dec true 15 1) ∧
+    Lex.cast .v10 (.untyped "+INF".toList) .double = .error .FORG0001 ∧
+    Lex.cast .v11 (.dbl .nan "nan".toList) (.integer ⟨none, none⟩) = .error .FOCA0002 := by decide
 
 end EPV.C10
